@@ -231,7 +231,10 @@ Ignored(n, ign) == CASE ign = "default" -> n # <<>> /\ n[1] \in {46, 64}
 Shown(n, D) == IF "F23" \in D THEN StripAll(n) ELSE TrimSuffix(n, Incomplete)
 TypeOfName(n) == IF HasSuffix(n, Incomplete) THEN HTft ELSE IF HasSuffix(n, PdfExt) THEN PDF ELSE TEXT   \* file_types.go (the extensions used)
 (* the type every view of a regular file shows: the one stored in its information fork, else the extension's default *)
-TypeOfFile(t, q) == IF Has(t, InfoOf(q)) /\ t[InfoOf(q)].k = "file" /\ Len(t[InfoOf(q)].ty) = 4 THEN t[InfoOf(q)].ty ELSE TypeOfName(Base(q))
+(* (the fork is whatever <dir>/.info_<name> resolves to: an alias or a moved side file of that name attaches to the sibling) *)
+InfoNode(t, q) == IF StatErr(t, InfoOf(q)) = "ok" THEN Follow(t, InfoOf(q), 3) ELSE NoPath
+TypeOfFile(t, q) == LET f == InfoNode(t, q) IN
+                    IF f # NoPath /\ t[f].k = "file" /\ Len(t[f].ty) = 4 THEN t[f].ty ELSE TypeOfName(Base(q))
 VisibleKids(t, d, ign) == {q \in Kids(t, d) : ~Ignored(Base(q), ign)}
 RsrcSize(t, p) == IF StatK(t, RsrcOf(p)) = "file" THEN StatS(t, RsrcOf(p)) ELSE 0
 
@@ -245,7 +248,9 @@ EntryOf(t, q, ign, D) ==
                                 ELSE [n |-> nm, ty |-> TypeOfName(Base(t[q].t)), sz |-> StatS(t, q), cls |-> "link"])
        [] OTHER -> [n |-> nm, ty |-> TypeOfFile(t, q), sz |-> t[q].s + RsrcSize(t, q),
                     cls |-> IF HasSuffix(n, Incomplete) THEN "partial"
-                            ELSE IF RsrcSize(t, q) > 0 \/ Has(t, RsrcOf(q)) THEN "forked" ELSE "plain"]
+                            ELSE IF RsrcSize(t, q) > 0 \/ Has(t, RsrcOf(q)) THEN "forked"
+                            ELSE IF TypeOfFile(t, q) = Fldr THEN "odd"      \* a file that a foreign fork declares a folder
+                            ELSE "plain"]
 Listable(t, q, ign) == /\ ~Ignored(Base(q), ign)
                        /\ (t[q].k = "link" => StatErr(t, q) = "ok")      \* a dangling alias is skipped
 ListingSet(t, d, ign, D) == {EntryOf(t, q, ign, D) : q \in {x \in Kids(t, d) : Listable(t, x, ign) /\ Encodable(Shown(Base(x), D))}}
@@ -317,10 +322,12 @@ DoSetInfo(t, m, s, rp, D) ==
       isDir == StatK(t, p) = "dir"
       ip == InfoOf(p)
       cm == Val(s.comment)
-      newInfo == IF Has(t, ip) /\ t[ip].k = "file" THEN InfoN(t[ip].s - t[ip].c + Len(cm), Len(cm), t[ip].ty)
+      (* the fork file is opened through an alias of that name, if there is one *)
+      ipr == IF Has(t, ip) /\ t[ip].k = "link" THEN (IF StatErr(t, ip) = "ok" THEN Follow(t, ip, 3) ELSE t[ip].t) ELSE ip
+      newInfo == IF Has(t, ipr) /\ t[ipr].k = "file" THEN InfoN(t[ipr].s - t[ipr].c + Len(cm), Len(cm), t[ipr].ty)
                  ELSE InfoN(74 + Len(Base(p)) + Len(cm), Len(cm), IF isDir THEN Fldr ELSE TypeOfName(Base(p)))
       w == IF s.comment = Absent THEN Good(t)
-           ELSE IF ~SideOK(p, rp, D) THEN Fail(t, "other") ELSE CreateFS(t, ip, newInfo)
+           ELSE IF ~SideOK(p, rp, D) THEN Fail(t, "other") ELSE CreateFS(t, ipr, newInfo)
       t1 == w.t
       nn == Val(s.newname)
       fileDir == rp \o DecPath(Clean(pr.items))
@@ -332,7 +339,7 @@ DoSetInfo(t, m, s, rp, D) ==
       tInc == IF raw THEN JoinRaw(fileDir, <<nd \o Incomplete>>) ELSE IncOf(tgt)
       tRsrc == IF raw THEN JoinRaw(fileDir, <<RsrcPfx \o nd>>) ELSE RsrcOf(tgt)
       tInfo == IF raw THEN JoinRaw(fileDir, <<InfoPfx \o nd>>) ELSE InfoOf(tgt)
-      effC == IF s.comment = Absent \/ ~SideOK(p, rp, D) THEN {} ELSE {ip}
+      effC == IF s.comment = Absent \/ ~SideOK(p, rp, D) THEN {} ELSE {ip, ipr}
   IN IF pr.st = "panic" THEN Res(t, m, "closed", {})
      ELSE IF pr.st = "err" THEN Res(t, m, "none", {})
      ELSE IF StatErr(t, p) # "ok" THEN Res(t, m, "none", {p})
@@ -508,7 +515,7 @@ WellFormed(s, T0, rp) ==
       dst == rp \o DecPath(Clean(pn.items))
   IN CASE s.kind = "newfolder" -> dirOK /\ PlainName(Val(s.name)) /\ IsDirAt(T0, Parent(p)) /\ ~ThroughLink(T0, p) /\ ~Has(T0, p)
        [] s.kind = "delete" -> srcOK
-       [] s.kind = "setcomment" -> srcOK
+       [] s.kind = "setcomment" -> srcOK /\ (Has(T0, InfoOf(p)) => T0[InfoOf(p)].k = "file")
        [] s.kind = "rename" -> srcOK /\ PlainName(Val(s.newname))
                                /\ LET q == Resolve(rp, pr.items, Val(s.newname))
                                   IN ~Has(T0, q) /\ \A x \in {IncOf(q), RsrcOf(q), InfoOf(q)} : ~Has(T0, x)
